@@ -77,7 +77,20 @@ fn main() {
     };
     *sweep::PROPERTY.lock().unwrap() = args[1].clone();
     sweep::start_watchdog(60);
-    let code = match args[1].as_str() {
+    // a panic of the harness itself (outside the caught subject calls) is a machinery failure, not a verdict
+    let code = match std::panic::catch_unwind(|| dispatch(&args[1], tier)) {
+        Ok(c) => c,
+        Err(e) => {
+            println!("MACHINERY: the harness panicked: {}", rdr::panic_msg(e));
+            2
+        }
+    };
+    sweep::DONE.store(true, Ordering::Relaxed);
+    std::process::exit(code);
+}
+
+fn dispatch(id: &str, tier: Tier) -> i32 {
+    match id {
         "C01" => c_inputs::c01(tier),
         "C02" => c_inputs::c02(tier),
         "C03" => c_configs::c03(tier),
@@ -97,7 +110,5 @@ fn main() {
             eprintln!("unknown property {}", other);
             2
         }
-    };
-    sweep::DONE.store(true, Ordering::Relaxed);
-    std::process::exit(code);
+    }
 }
